@@ -217,6 +217,10 @@ impl Variant {
     }
 
     pub fn plus(self, other: Self) -> Result<Self, VariantError> {
+        self.plus_unchecked(other).and_then(Self::checked_finite)
+    }
+
+    fn plus_unchecked(self, other: Self) -> Result<Self, VariantError> {
         match self {
             Self::VSingle(f_left) => match other {
                 Self::VSingle(f_right) => Ok(Self::VSingle(f_left + f_right)),
@@ -249,6 +253,10 @@ impl Variant {
     }
 
     pub fn minus(self, other: Self) -> Result<Self, VariantError> {
+        self.minus_unchecked(other).and_then(Self::checked_finite)
+    }
+
+    fn minus_unchecked(self, other: Self) -> Result<Self, VariantError> {
         match self {
             Self::VSingle(f_left) => match other {
                 Self::VSingle(f_right) => Ok(Self::VSingle(f_left - f_right)),
@@ -279,6 +287,10 @@ impl Variant {
     }
 
     pub fn multiply(self, other: Self) -> Result<Self, VariantError> {
+        self.multiply_unchecked(other).and_then(Self::checked_finite)
+    }
+
+    fn multiply_unchecked(self, other: Self) -> Result<Self, VariantError> {
         match self {
             Self::VSingle(f_left) => match other {
                 Self::VSingle(f_right) => Ok(Self::VSingle(f_left * f_right)),
@@ -307,6 +319,10 @@ impl Variant {
     }
 
     pub fn divide(self, other: Self) -> Result<Self, VariantError> {
+        self.divide_unchecked(other).and_then(Self::checked_finite)
+    }
+
+    fn divide_unchecked(self, other: Self) -> Result<Self, VariantError> {
         match self {
             Self::VSingle(f_left) => match other {
                 Self::VSingle(f_right) => div!(f_left, f_right),
@@ -337,6 +353,15 @@ impl Variant {
                 _ => Err(VariantError::TypeMismatch),
             },
             _ => Err(VariantError::TypeMismatch),
+        }
+    }
+
+    /// A floating point result beyond the range of its type is an overflow.
+    fn checked_finite(self) -> Result<Self, VariantError> {
+        match self {
+            Self::VSingle(f) if !f.is_finite() => Err(VariantError::Overflow),
+            Self::VDouble(d) if !d.is_finite() => Err(VariantError::Overflow),
+            _ => Ok(self),
         }
     }
 
